@@ -104,7 +104,9 @@ Proof.
     replace (Z.of_N (done + (1 + (1 + len P) + len R)) - Z.of_N done - 2 <? Z.of_N (len P))%Z with false
       by (symmetry; apply Z.ltb_ge; lia).
     red1. change (2 =? segDescTag) with true. red1. rewrite next_app by reflexivity. red1.
-    unfold P, parse_descriptor, buf_new. rewrite next4. red1. rewrite be32_of_4. red1.
+    unfold P, parse_descriptor, buf_new. rewrite blen_mk, !len_cons.
+    match goal with |- context [?e <? 4] => replace (e <? 4) with false by (symmetry; apply N.ltb_ge; lia) end. red1.
+    rewrite next4. red1. rewrite be32_of_4. red1.
     replace (be32 i0 i1 i2 i3 =? segDescID) with false by (symmetry; apply N.eqb_neq; exact Hid). reflexivity.
   - inversion Hwf as [|? ? Hd Hwf']; subst.
     cbn [app]. unfold ser_descriptors. cbn [flat_map]. fold (ser_descriptors (ds ++ bad :: more)).
